@@ -138,7 +138,7 @@ func Run(t *testing.T, dec *Decisions, maxSteps int, logf func(string, ...any), 
 	if maxSteps <= 0 {
 		maxSteps = 20000
 	}
-	watch := time.AfterFunc(60*time.Second, func() {
+	watch := time.AfterFunc(5*time.Minute, func() {
 		// real-time watchdog: a goroutine blocked on a mutex while the lock
 		// holder is parked never becomes "durably blocked"
 		buf := make([]byte, 1<<20)
